@@ -208,7 +208,7 @@ func predInit(c initCase, o *evid.Obs) error {
 }
 
 func addInit(r *evid.Run) {
-	evid.Add(r, evid.Prop[initCase]{Name: "init-entries", Quick: 120, Thorough: 1200, Gen: genInit, Pred: predInit})
+	evid.Add(r, evid.Prop[initCase]{Name: "init-entries", Quick: 120, Thorough: 400, Gen: genInit, Pred: predInit})
 }
 
 var _ = fakech.CtrlNoFault
